@@ -1186,15 +1186,22 @@ def run_blob_case(rng, tmp):
         log.append('commit %s' % [w[0] for w in writes])
         return []
 
-    def check(top, gone):
+    def check(top, gone, first='load'):
         for (oid, tid), text in sorted(content.items()):
+            what = None
             try:
+                if first == 'open':
+                    what = 'openCommittedBlobFile'
+                    with top.openCommittedBlobFile(p64(oid), tid) as f:
+                        got2 = f.read()
+                what = 'loadBlob'
                 with open(top.loadBlob(p64(oid), tid), 'rb') as f:
                     got = f.read()
+                what = 'openCommittedBlobFile'
                 with top.openCommittedBlobFile(p64(oid), tid) as f:
                     got2 = f.read()
             except Exception as e:
-                return 'loadBlob(%d, %s) through the demo stack raised %s' % (oid, abs_tid(tid), type(e).__name__)
+                return '%s(%d, %s) through the demo stack raised %s' % (what, oid, abs_tid(tid), type(e).__name__)
             if got != text or got2 != text:
                 return 'loadBlob(%d, %s) returned the wrong file content' % (oid, abs_tid(tid))
         for oid, tid in gone:
@@ -1228,6 +1235,15 @@ def run_blob_case(rng, tmp):
                 new = lower.push() if isinstance(lower, DemoStorage) else DemoStorage(base=lower)
             log.append('push %s' % ck_kind)
             stack.append(new)
+            if rng.random() < 0.8:
+                # the very FIRST blob read through a fresh layer (implicit changes are made blob-capable by
+                # this call) must already fall through to the layers below
+                first = rng.choice(['load', 'open'])
+                log.append('first-read %s' % first)
+                bad = bad or check(new, gone, first)
+                if bad:
+                    bad = 'first blob read through a fresh layer: ' + bad
+                    break
             for _ in range(rng.choice([1, 2, 4])):
                 oids = rng.sample([1, 2, 3, 4], rng.choice([1, 2]))
                 if rng.random() < 0.4:
@@ -1452,6 +1468,127 @@ def run_sched_commit_case(tmp, ckind, seed, schedule=None):
     return bad, dict(sched_commit=dict(ckind=ckind, seed=seed, schedule=res['decisions']))
 
 
+# ---------------------------------------------------------------- conflicts resolved across the layers
+def run_resolve_case(rng, tmp):
+    """A class with _p_resolveConflict (PCounter): a store with a stale serial -- from the base while the
+    current revision is in the changes, or an older base revision while the current one is also in the base
+    -- is resolved against the MERGED current revision, the merged state is what gets committed, and
+    tpc_vote reports exactly the oids whose data were replaced by a resolution (the committer must
+    invalidate them); an unresolvable class raises ConflictError."""
+    from ZODB.tests.ConflictResolution import PCounter
+    d = os.path.join(tmp, 'resolvecase')
+    shutil.rmtree(d, ignore_errors=True)
+    os.makedirs(d)
+    FAKE.queue = []
+
+    def pc(v):
+        o = PCounter()
+        o._value = v
+        return zodb_pickle(o)
+
+    def val(data):
+        return zodb_unpickle(data)._value
+
+    def mk(kind, name):
+        return MappingStorage(name) if kind == 'mapping' else FileStorage(os.path.join(d, name + '.fs'), create=True)
+    bk, ckind = rng.choice(['mapping', 'file']), rng.choice(['mapping', 'file', None])
+    log = ['base %s changes %s' % (bk, ckind or 'implicit')]
+    bad = None
+    stack = []
+    try:
+        base = mk(bk, 'rb')
+        stack.append(base)
+        T = lambda k: real_tid(UNIT * k)  # noqa: E731
+        t = TransactionMetaData()
+        base.tpc_begin(t, T(1))
+        base.store(p64(1), z64, pc(0), '', t)
+        base.store(p64(2), z64, pc(10), '', t)
+        base.store(p64(3), z64, pickle_of(1), '', t)
+        base.tpc_vote(t)
+        base.tpc_finish(t)
+        t = TransactionMetaData()
+        base.tpc_begin(t, T(2))
+        base.store(p64(2), T(1), pc(12), '', t)
+        base.tpc_vote(t)
+        base.tpc_finish(t)
+        snap = dump(base)
+        demo = DemoStorage(base=base, changes=(mk(ckind, 'rc') if ckind else None))
+        stack.append(demo)
+        if rng.random() < 0.4:
+            demo = demo.push()
+            stack.append(demo)
+            log.append('pushed')
+        k = 2
+        inc1 = rng.choice([1, 2, 5])
+        first_writer = rng.random() < 0.7
+        if first_writer:
+            k += 1
+            t = TransactionMetaData()
+            demo.tpc_begin(t, T(k))
+            demo.store(p64(1), T(1), pc(inc1), '', t)
+            r = demo.tpc_vote(t)
+            demo.tpc_finish(t)
+            if set(r or ()):
+                bad = 'tpc_vote reported resolved oids %r for a commit without conflict' % (sorted(r),)
+            log.append('first writer: oid 1 -> %d' % inc1)
+        cur1 = inc1 if first_writer else 0
+        # second committer: stale serials
+        k += 1
+        t = TransactionMetaData()
+        demo.tpc_begin(t, T(k))
+        want_resolved = set()
+        expect = {}
+        new1 = rng.choice([3, 7])
+        if first_writer:
+            demo.store(p64(1), T(1), pc(new1), '', t)          # stale: base serial, current is in the changes
+            want_resolved.add(p64(1))
+            expect[1] = cur1 + new1 - 0
+        else:
+            demo.store(p64(1), T(1), pc(new1), '', t)          # current serial: no conflict
+            expect[1] = new1
+        if rng.random() < 0.7:
+            demo.store(p64(2), T(1), pc(15), '', t)            # stale: older base revision, current in the base
+            want_resolved.add(p64(2))
+            expect[2] = 12 + 15 - 10
+        if rng.random() < 0.5:
+            demo.store(p64(7), z64, pc(1), '', t)              # new object: nothing to resolve
+            expect[7] = 1
+        if rng.random() < 0.4:
+            try:
+                demo.store(p64(3), z64, pickle_of(2), '', t)   # stale serial, class cannot resolve
+                bad = bad or 'store of an unresolvable class with a stale serial was accepted'
+            except POSException.ConflictError:
+                log.append('unresolvable: ConflictError')
+        r = demo.tpc_vote(t)
+        tid = demo.tpc_finish(t)
+        log.append('second committer resolved=%s' % sorted(u64(o) for o in want_resolved))
+        got = set(r or ())
+        if not bad and got != want_resolved:
+            bad = ('tpc_vote returned %s; the stores of oids %s were resolved against the merged current '
+                   'revision and their data replaced (the committer must be told)' % (
+                       sorted(u64(o) for o in got), sorted(u64(o) for o in want_resolved)))
+        if not bad:
+            for o, v in sorted(expect.items()):
+                data, ser = demo.load(p64(o))
+                if val(data) != v or ser != tid:
+                    bad = 'oid %d reads value %r serial %s after the resolved commit, expected %r at %s' % (
+                        o, val(data), abs_tid(ser), v, abs_tid(tid))
+                    break
+        if not bad and dump(base) != snap:
+            bad = 'the base changed'
+    except Exception as e:
+        import traceback
+        bad = bad or 'resolve scenario raised %s: %s' % (type(e).__name__, traceback.format_exc()[-500:])
+    finally:
+        for st in reversed(stack):
+            try:
+                st.close()
+            except Exception:
+                pass
+        shutil.rmtree(d, ignore_errors=True)
+    return bad, log
+
+
 # ---------------------------------------------------------------- close(): who owns what
 def is_open(st, oid=1):
     try:
@@ -1645,7 +1782,7 @@ def main(argv=None):
             ncases = 0
             probes = case['probe']
         elif case.get('blob_seed') is not None or case.get('overlap') or case.get('sched_commit') \
-                or case.get('close_seed') is not None:
+                or case.get('close_seed') is not None or case.get('resolve_seed') is not None:
             ncases = 0
             probes = False
         else:
@@ -1731,6 +1868,18 @@ def main(argv=None):
         ck.case(['sched-commit', info], True, None)
         if bad:
             ck.violation('C16:commit-tid-order', bad, info)
+    # ---- conflicts resolved across the layers: merged state stored, tpc_vote reports the oids
+    res_seeds = []
+    if rcase.get('resolve_seed') is not None:
+        res_seeds = [rcase['resolve_seed']]
+    elif not ck.replay_path:
+        res_seeds = [ck.rng.randrange(10 ** 12) for _ in range(40 if not ck.thorough else 800)]
+    for rs in res_seeds:
+        bad, rlog = run_resolve_case(_random.Random(rs), ck.tmp)
+        ck.count('resolve:cases')
+        ck.case(['resolve', rlog], True, None)
+        if bad:
+            ck.violation('C16:resolved-conflict', bad, dict(resolve_seed=rs, log=rlog))
     # ---- close(): pushed layers and the ownership flags
     close_seeds = []
     if rcase.get('close_seed') is not None:
